@@ -225,6 +225,12 @@ impl AdjacencyMatrix {
                     }
                 }
             }
+            // the derived `==` is symmetric: the comparison may be written either way round
+            assert forall|c: AdjacencyMatrix| #[trigger] vstd::std_specs::cmp::PartialEqSpec::eq_spec(&c, self)
+                == vstd::std_specs::cmp::PartialEqSpec::eq_spec(self, &c) by {
+                lemma_matrix_eq_spec(*self, c);
+                lemma_matrix_eq_spec(c, *self);
+            }
         }
     @*/
 }
